@@ -12,3 +12,7 @@ import TypedpyModel.Props.C05
 #print axioms Typedpy.C05.xclass_round_trip_partial
 #print axioms Typedpy.C05.decimal_round_trip_lossy
 #print axioms Typedpy.C05.xclass_round_trip_example
+#print axioms Typedpy.C05.anyof_round_trip_partial
+#print axioms Typedpy.C05.anyof_round_trip_example
+#print axioms Typedpy.C05.class_round_trip_extras_partial
+#print axioms Typedpy.C05.class_round_trip_extras_example
